@@ -183,6 +183,34 @@ func nmfCall(k nmfCase) (f *of.MatchField, err error, argBefore, argAfter string
 		name = string(b)
 	}
 	k.name = name
+	// the window's own integer type is the caller's choice too: when the values fit, a share of the
+	// calls passes them as uint8 or uint16 (offset + width computed in that type can wrap at 256)
+	if len(w) > 0 && (k.vtype == "uint64" || k.vtype == "uint32") {
+		fits := func(max int) bool {
+			for _, x := range w {
+				if x < 0 || x > max {
+					return false
+				}
+			}
+			return true
+		}
+		switch {
+		case k.vtype == "uint64" && fits(255):
+			n := make([]uint8, len(w))
+			for i, x := range w {
+				n[i] = uint8(x)
+			}
+			f, err = of.NewMatchField(k.name, v.Uint64(), n...)
+			return
+		case k.vtype == "uint32" && fits(65535):
+			n := make([]uint16, len(w))
+			for i, x := range w {
+				n[i] = uint16(x)
+			}
+			f, err = of.NewMatchField(k.name, uint32(v.Uint64()), n...)
+			return
+		}
+	}
 	switch k.vtype {
 	case "named uint32":
 		f, err = of.NewMatchField(k.name, c17RegMark(v.Uint64()), w...)
